@@ -932,3 +932,6 @@ func (c *Ctx) plainDocument() {
 	_ = nSelf
 	c.Check(len(why) == 0, "c12.plain-document", "PlainDocument", c.P.Pos(f.Pos()), "self only when plain; the copy excludes `<-` and lazy CTEs", strings.Join(uniq(why), "; "))
 }
+
+// the memoised CTE must stay a CTE entry (c07.cte-memo): otherwise `SELECT * FROM dual` changes between two evaluations
+func init() { register("C12", ruleC07CteMemo); register("C02", ruleC07CteMemo) }
